@@ -226,7 +226,7 @@ def judge_resources(model_trace, meta, out, nlibs):
 
 # ------------------------------------------------------------------ (B) differential search per library
 
-DENY = re.compile(r"exit|kill|fork|exec|sleep|join|lock|wait|terminate|delete|remove|rename|unlink|rmdir|mkdir|create|chmod|chown|"
+DENY = re.compile(r"exit|kill|fork|exec|process->|sleep|join|lock|wait|terminate|delete|remove|rename|unlink|rmdir|mkdir|create|chmod|chown|"
                   r"truncate|link|write|send|listen|accept|connect|read|receive|signal|alarm|abort|emergency|system|open|close|"
                   r"set-|-set!|!$|call-with|with-|current-thread|yield|file|directory|dir|chdir|umask|pipe|dup|tty|pty|socket|poll|select|flush|load|import|eval|env|trace|profil|gc|heap|debug|string-cursor|cursor")
 
